@@ -123,9 +123,14 @@ class VarMatcher(BaseMatcher):
 @dataclass(frozen=True, slots=True)
 class SequenceMatcher(BaseMatcher):
     matchers: tuple[BaseMatcher, ...]
-    tail_matcher: AnyMatcher | None = field(default=None, init=False)
+    # init field, so that dataclasses.replace (used to add a capture name) keeps the tail
+    tail_matcher: AnyMatcher | None = field(default=None)
 
     def __post_init__(self) -> None:
+        if self.tail_matcher is not None:
+            # Already split (e.g. re-created via dataclasses.replace)
+            return
+
         if len(self.matchers) == 0:
             raise RuntimeError(
                 "SequenceMatcher must have at least one matcher."
